@@ -26,27 +26,31 @@
 (* 4 * probe + 8 * delivered + 16 * sent of q[i] (the offsets follow from  *)
 (* Tiling, which is an invariant).                                         *)
 (*                                                                         *)
-(* Value sets (SEGS_TIER = quick | thorough, SEGS_DEPTH overrides):        *)
+(* Value sets (SEGS_TIER = quick | thorough; Depth = 6 | 8):               *)
 (*   enqueue  len in {1, 2, 3}, probe in {0, 1}, at most MaxQ = 5 queued   *)
 (*   send     start in {None, una - 1, una + 1, una + n - 1}; on_sent on   *)
 (*            one yielded item (each position) or on all of them; a        *)
 (*            segment is sent at most MaxSent = 3 times                    *)
 (*   ack      ack_nr in una - 4 .. una + n + 1; no SACK, or a SACK of one  *)
-(*            byte (bits 0..3 in all combinations; quick: 0..2 and {3},    *)
-(*            {0,3}) or of eight bytes with the far bit 63 (alone, with    *)
-(*            bit 0, with bit 1)                                           *)
+(*            byte (thorough: bits 0..3 in all combinations; quick: bits   *)
+(*            0..2 in all combinations, {3}, {0,3}) or of eight bytes with *)
+(*            the far bit 63 (alone, with bit 0, with bit 1)               *)
 (*   pop      seq in {last - 1, last, last + 1}                            *)
 (*   popx     timed_out in {0, 1}, max_retx in {0, 1, 2}                   *)
-(* After FullDepth calls the alphabets shrink (Deep) so that the last      *)
-(* levels stay affordable.                                                 *)
+(* These full alphabets are offered for the first FullDepth = 3 calls.     *)
+(* Later calls draw from smaller ones so that the last levels stay         *)
+(* affordable (Lvl): "reduced" (calls 4, 5), "small" (quick: call 6;       *)
+(* thorough: calls 6, 7) and, thorough only, eight fixed calls as call 8.  *)
+(* SEGS_DEPTH / SEGS_FULL / SEGS_LAST override Depth / FullDepth / the     *)
+(* number of "small" levels.                                               *)
 (***************************************************************************)
 EXTENDS Segments, TLC, Json, IOUtils
 
 EnvInt(name, default) == IF name \in DOMAIN IOEnv THEN atoi(IOEnv[name]) ELSE default
 Thorough  == "SEGS_TIER" \in DOMAIN IOEnv /\ IOEnv.SEGS_TIER = "thorough"
 Depth     == EnvInt("SEGS_DEPTH", IF Thorough THEN 8 ELSE 6)
-FullDepth == EnvInt("SEGS_FULL", IF Thorough THEN 4 ELSE 3)
-LastLevels == EnvInt("SEGS_LAST", IF Thorough THEN 2 ELSE 1)
+FullDepth == EnvInt("SEGS_FULL", 3)
+LastLevels == EnvInt("SEGS_LAST", IF Thorough THEN 3 ELSE 1)
 MaxQ      == 5
 MaxSent   == 3
 Lens      == {1, 2, 3}
@@ -56,9 +60,12 @@ VARIABLES st, depth,
           ob        \* Obs(st): carried along so that it is computed once per state
 vars == <<st, depth, ob>>
 
-(* 0: full alphabets, 1: reduced (from FullDepth calls on), 2: the last call *)
-Lvl == IF depth >= Depth - LastLevels THEN 2 ELSE IF depth >= FullDepth THEN 1 ELSE 0
-Pick(a, b, c) == IF Lvl = 0 THEN a ELSE IF Lvl = 1 THEN b ELSE c
+(* 0: full alphabets; 1: reduced (from FullDepth calls on); 2: small (the last LastLevels calls); 3: the
+   very last call of the thorough instance (quick: its last call is of kind 2) *)
+Lvl == IF Thorough /\ depth >= Depth - 1 THEN 3
+       ELSE IF depth >= Depth - LastLevels THEN 2 ELSE IF depth >= FullDepth THEN 1 ELSE 0
+Pick4(a, b, c, d) == IF Lvl = 0 THEN a ELSE IF Lvl = 1 THEN b ELSE IF Lvl = 2 THEN c ELSE d
+Pick(a, b, c) == Pick4(a, b, c, c)
 
 Code(g) == g.len + 4 * B(g.probe) + 8 * B(g.dlv) + 16 * g.sent
 Key(s, d) == <<d, s.una, s.removed>> \o [i \in 1..NQ(s) |-> Code(s.q[i])]
@@ -67,9 +74,10 @@ Key(s, d) == <<d, s.una, s.removed>> \o [i \in 1..NQ(s) |-> Code(s.q[i])]
 (* The calls offered in state s.                                           *)
 EnqOps(s) ==
     IF NQ(s) < MaxQ /\ MayEnqueue(s)
-    THEN Pick({ <<"e", l, p>> : l \in Lens, p \in {0, 1} },
-              { <<"e", l, p>> : l \in {1, 3}, p \in {0, 1} },
-              { <<"e", 2, 0>>, <<"e", 3, 1>> })
+    THEN Pick4({ <<"e", l, p>> : l \in Lens, p \in {0, 1} },
+               { <<"e", l, p>> : l \in {1, 3}, p \in {0, 1} },
+               { <<"e", 2, 0>>, <<"e", 3, 1>> },
+               { <<"e", 2, 0>> })
     ELSE {}
 
 SendStarts(s) ==
@@ -79,19 +87,21 @@ SendStarts(s) ==
 SendMasks(s, start) ==
     LET y == Yield(s, start)
         m == Len(y)
-        one == { 2 ^ (k - 1) : k \in { j \in 1..m : s.q[y[j]].sent < MaxSent } }
-        all == IF m >= 2 /\ \A j \in 1..m : s.q[y[j]].sent < MaxSent THEN {2 ^ m - 1} ELSE {}
+        one == IF Lvl = 3 THEN {} ELSE { 2 ^ (k - 1) : k \in { j \in 1..m : s.q[y[j]].sent < MaxSent } }
+        all == IF m >= (IF Lvl = 3 THEN 1 ELSE 2) /\ \A j \in 1..m : s.q[y[j]].sent < MaxSent THEN {2 ^ m - 1} ELSE {}
     IN one \cup all
 SendOps(s) == { <<"s", x[1], x[2]>> : x \in UNION { { <<b, mk>> : mk \in SendMasks(s, b) } : b \in SendStarts(s) } }
 
-LowSets  == Pick(IF Thorough THEN 0..15 ELSE (0..7) \cup {8, 9}, IF Thorough THEN {1, 2, 5, 7} ELSE {1, 2, 5}, {1, 6})
+LowSets  == Pick4(IF Thorough THEN 0..15 ELSE (0..7) \cup {8, 9}, IF Thorough THEN {1, 2, 5, 7} ELSE {1, 2, 5}, {1, 6}, {})
 FarBytes == Pick({ <<b, 0, 0, 0, 0, 0, 0, 128>> : b \in {0, 1, 2} }, { <<0, 0, 0, 0, 0, 0, 0, 128>> }, {})
 Sacks    == { <<0, << >> >> } \cup { <<1, <<b>> >> : b \in LowSets } \cup { <<1, f>> : f \in FarBytes }
+(* the very last call: a cumulative ACK of the first segment, an old ACK with bit 0 / with bits 1 and 2 *)
+FinalAcks(s) == { <<"a", s.una, 0, << >> >>, <<"a", SeqSubK(s.una, 1, M), 1, <<1>> >>, <<"a", SeqSubK(s.una, 3, M), 1, <<6>> >> }
 AckRel(s) == Pick((-4)..(NQ(s) + 1),
                   IF Thorough THEN {-3, -2, -1, 0, 1, NQ(s) - 1, NQ(s)} ELSE {-3, -2, -1, 0, NQ(s) - 1},
                   {-3, -1, 0, NQ(s) - 2})
 AckNrs(s) == { Add(s.una, k + M, M) : k \in AckRel(s) }
-AckOps(s) == { <<"a", a, k[1], k[2]>> : a \in AckNrs(s), k \in Sacks }
+AckOps(s) == IF Lvl = 3 THEN FinalAcks(s) ELSE { <<"a", a, k[1], k[2]>> : a \in AckNrs(s), k \in Sacks }
 
 PopOps(s)  == { <<"p", Add(s.una, NQ(s) + M - 1 + k, M)>> : k \in Pick({-1, 0, 1}, {-1, 0}, {0}) }
 PopxOps(s) == { <<"x", x[1], x[2]>> : x \in Pick({0, 1} \X {0, 1, 2}, {<<1, 0>>, <<1, 1>>, <<1, 2>>, <<0, 0>>}, {<<1, 0>>, <<1, 1>>}) }
